@@ -21,7 +21,7 @@ struct Case
 {
     int mode;
     u64 D, n, next, ncols, nphase, nblock;
-    int buf;     // 0 NULL, 1 caller buffer
+    int buf;     // 0 NULL, 1 caller buffer, 2 the source matrix itself is donated as scratch
     int dst;     // 0 in place (dst == src), 1 other buffer, 2 NULL destination
     unsigned nthreads;
     int pre;     // call made on the same object BEFORE the measured one (non-initial object state): 0 none, 1/2 extendPol with another N, 3 NTT of the full domain
@@ -323,7 +323,7 @@ static void run_case(const Case &c)
         for (size_t i = 0; i < ndst; i++) buf.p[i].fe = SENT + 1;
         if (ms) { src.p[srclen].fe = SLACK; dst.p[ndst + 1].fe = SLACK; buf.p[ndst].fe = SLACK; }
         E *d = (c.dst == 0) ? src.p : (c.dst == 1 ? dst.p + 1 : nullptr);
-        E *b = c.buf ? buf.p : nullptr;
+        E *b = c.buf == 1 ? buf.p : c.buf == 2 ? src.p : nullptr; // buf = 2: the caller donates the source matrix as scratch (it is dead after the first read)
         NTT_Goldilocks &obj = c.cp ? *new NTT_Goldilocks(ntt) : ntt; // the copy is leaked on purpose (see Case::cp)
         if (c.mode == M_NTT) { if (c.xt) obj.NTT(d, src.p, n, ncols, b, c.nphase, c.nblock, false, true); else obj.NTT(d, src.p, n, ncols, b, c.nphase, c.nblock); }
         else if (c.mode == M_INTT) obj.INTT(d, src.p, n, ncols, b, c.nphase, c.nblock);
@@ -358,7 +358,7 @@ static void run_case(const Case &c)
         if (c.dst == 1)
         {
             if (dst.p[0].fe != SENT) { rep().viol(prop + ".write-outside." + mname[c.mode], casestr(c), "element before the destination overwritten"); return; }
-            if (c.mode == M_NTT) // stated for the forward transform only
+            if (c.mode == M_NTT && c.buf != 2) // stated for the forward transform only
             for (size_t i = 0; i < nsrc; i++)
                 if (src.p[i].fe != in[i]) { rep().viol(prop + ".source-modified." + mname[c.mode] + "." + fail_class(c), casestr(c), fmt("source element %zu changed although the destination is another buffer", i)); return; }
         }
@@ -601,6 +601,14 @@ int main(int argc, char **argv)
             {
                 Case d = c;
                 d.pre = pre;
+                std::string k = casestr(d);
+                if (seen.insert(k).second) extra.push_back(d);
+            }
+            // the source matrix donated as the scratch buffer (destination elsewhere, one block)
+            if (c.mode != M_EXT)
+            {
+                Case d = c;
+                d.buf = 2;
                 std::string k = casestr(d);
                 if (seen.insert(k).second) extra.push_back(d);
             }
